@@ -183,6 +183,18 @@ def run_fault(spec):
 @st.composite
 def contraction_case(draw):
     nonlinear = draw(st.booleans())
+    if draw(st.sampled_from([True, False, False, False])):
+        # the corner of the stated domain: few variables, gain close to 0.8, constants close to 1e3 (fixed points in
+        # the thousands), the tightest tolerances - where the error measure switches from relative to absolute
+        spec = draw(blocks.system(n_sim=(1, 2), q_hi=80, q_lo=70, lags=(0, 0), exos=(0, 0), consts=(0, 0), aliases=(0, 0),
+                                  leaves=(0, 1), horizon=(1, 3), nonlinear=False, const_mag=100000,
+                                  tols=('1e-8', '1e-7'), user_t=(False,), feedforward=False, max_row_terms=2,
+                                  time_terms=False))
+        for e_ in spec['eqs']:
+            if e_[2] == 'sim':
+                e_[1] = e_[1] + ' + ' + draw(st.sampled_from(['900.0', '1000.0', '700.0']))
+        spec['reduction'] = draw(st.booleans())
+        return spec
     spec = draw(blocks.system(n_sim=(1, 12), q_hi=80, q_lo=30, lags=(0, 3), exos=(0, 2), consts=(0, 2), aliases=(0, 0),
                               leaves=(0, 2), horizon=(1, 5), ic_prob=10, nonlinear=nonlinear, const_mag=100000,
                               tols=('1e-8', '1e-6', '1e-3', '1e-7'), user_t=(False, True), feedforward=False,
